@@ -5,8 +5,6 @@ import (
 	"reflect"
 	"strconv"
 	"strings"
-	"unicode"
-	"unicode/utf8"
 	"unsafe"
 
 	"github.com/philpearl/plenc/plenccore"
@@ -43,8 +41,7 @@ func BuildStructCodec(p CodecBuilder, registry CodecRegistry, typ reflect.Type, 
 	for i := range c.fields {
 		sf := typ.Field(i)
 
-		r, _ := utf8.DecodeRuneInString(sf.Name)
-		if unicode.IsLower(r) {
+		if !sf.IsExported() {
 			continue
 		}
 
